@@ -177,6 +177,26 @@ pub mod proofs {
         core::mem::forget((s, h));
     }
 
+    /// A handle outlives its instance and adds a signal: when the last handle is
+    /// gone, that registration is gone too (cleanup belongs to the shared state,
+    /// not to the instance object).
+    #[kani::proof]
+    #[kani::stub(core::fmt::write, crate::common::no_fmt_write)]
+    #[kani::unwind(6)]
+    pub fn c12_handle_outlives_instance() {
+        let (s, h) = crate::c09::mk_delivery(false);
+        assert!(reg::view(SA).n == 1, "C12: the constructor did not register the watched signal");
+        drop(s);
+        assert!(reg::view(SA).n == 1, "C12: registrations were removed while a handle still exists");
+        let r = ok(h.add_signal(SB));
+        assert!(r.is_some(), "C12: add_signal through a surviving handle failed");
+        let r2 = ok(h.add_signal(SB));
+        assert!(r2.is_some() && reg::view(SB).n == 1, "C12: re-adding a watched signal is not a no-op");
+        drop(h);
+        assert!(reg::view(SA).n == 0 && reg::view(SB).n == 0, "C12: a registration made by the instance is still there after the instance and all its handles are gone");
+        kani::cover!(true, "must-reach: the instance and its last handle were dropped");
+    }
+
     /// backend level: with_pipe fails on its second signal: the first one must not stay registered
     #[kani::proof]
     #[kani::stub(core::fmt::write, crate::common::no_fmt_write)]
